@@ -5,6 +5,7 @@ import itertools
 import time
 import random
 
+from .. import config_common as cc
 from .. import coqterm as ct
 from .. import gen_tree as gt
 from .. import ns
@@ -108,6 +109,30 @@ class C17(Prop):
                 out.append({"script": spec, "names": grp[i:i + 14]})
         return out
 
+    def _reconfigure(self, rng, spec):
+        """list-valued settings; configurations given in several configure() calls, one dict object
+        handed to two sibling collections"""
+        p_break = 0.04 if rng.random() < 0.12 else 0.0
+
+        def walk(sp):
+            if "module" in sp:
+                return walk(sp["ns"])
+            sp["config"] = gt.jsonable(ns.schema_config(rng, p_break=p_break, kinds="nbisl"))
+            subs = [it["coll"] for it in sp["items"] if "coll" in it and "module" not in it["coll"]]
+            for c in [it["coll"] for it in sp["items"] if "coll" in it]:
+                walk(c)
+            if len(subs) >= 2 and rng.random() < 0.5:
+                base = gt.jsonable(ns.schema_config(rng, p_keep=0.3, kinds="nbisl"))
+                if base:
+                    for c in rng.sample(subs, 2):
+                        try:
+                            merged = ns.py_merge(base, c["config"])
+                        except ValueError:
+                            continue
+                        c["config_parts"] = [base, c["config"]]
+                        c["config"] = merged
+        walk(spec)
+
     def generate(self, rng, tier, n):
         out = 0
         while out < n:
@@ -116,12 +141,16 @@ class C17(Prop):
             spec = ns.gen_coll(rng, rng.choice([2, 2, 3, 3]), ids, name=rng.choice([None, "root"]),
                                clean=clean, p_break=0.04 if rng.random() < 0.12 else 0.0,
                                share=0.0 if clean else 0.1)
+            self._reconfigure(rng, spec)
             names, st = self._names(rng, spec)
             seed = rng.randrange(1 << 30) if rng.random() < 0.4 else None
+            # (trees with colliding bindings are outside the statement: the command line and the
+            #  lookup may then legitimately disagree on what an alias means -- C10 -- so no contexts there)
+            form = rng.choice(["str", "pair", "ctx"]) if clean else rng.choice(["str", "pair"])
             for c in self._split(spec, names, st):
                 if seed is not None:
                     c = dict(c, build_seed=seed)   # attach-then-populate order, queries in between
-                yield c
+                yield dict(c, req_form=form)
                 out += 1
                 if out >= n:
                     break
@@ -151,7 +180,10 @@ class C17(Prop):
 
     # ---- implementation ----------------------------------------------------
     def run_impl(self, case):
-        coll, st = ns.build_and_dump(case["script"], ns.Builder(build_seed=case.get("build_seed")))
+        self._seen = seen = []
+        b = ns.Builder(build_seed=case.get("build_seed"), sigs=_NoArgs(),
+                       on_call=lambda tid, ctx, a, k: seen.append([tid, gt.jsonable(gt.deep_view(ctx.config))]))
+        coll, st = ns.build_and_dump(case["script"], b)
         obs = []
         if coll is not None:
             for nm in case["names"]:
@@ -163,12 +195,52 @@ class C17(Prop):
                     obs.append({"err": "RecursionError"})
                 except Exception as e:  # noqa
                     obs.append({"err": type(e).__name__})
-        return {"state": st, "obs": obs}
+        return {"state": st, "obs": obs, "body": self._body_views(case, coll, b) if coll is not None else []}
+
+    def _body_views(self, case, coll, builder):
+        """execute every name (as a string, a (name, kwargs) pair or a parsed context) with an otherwise
+        empty Config and record what the task body sees as its context's config"""
+        from invoke import Executor
+        from invoke.parser import Parser
+        seen = self._seen
+        sess = cc.Session({"fs": [], "init": {"defaults": None, "overrides": None, "proj": None, "rt": None, "lazy": False}})
+        out = []
+        try:
+            form = case.get("req_form", "str")
+            parser = None
+            if form == "ctx":
+                try:
+                    parser = Parser(contexts=coll.to_contexts())
+                except Exception:  # noqa
+                    parser = None
+            for nm in case["names"]:
+                req = nm
+                if form == "pair":
+                    req = (nm, {})
+                elif parser is not None and nm:
+                    try:
+                        parsed = parser.parse_argv([nm])
+                        if len(parsed) == 1:
+                            req = parsed[0]
+                    except Exception:  # not a command-line name: executed as a pair
+                        req = (nm, {})
+                del seen[:]
+                try:
+                    Executor(coll, config=sess.construct()).execute(req)
+                    out.append({"ok": seen[0]} if len(seen) == 1 else {"err": "Bodies%d" % len(seen)})
+                except RecursionError:
+                    out.append({"err": "RecursionError"})
+                except Exception as e:  # noqa
+                    out.append({"err": type(e).__name__})
+        finally:
+            sess.close()
+        return out
 
     def to_coq(self, case, obs):
         st = ct.result(obs["state"], ns.state)
         o = ct.lst([ct.result(x, lambda v: ct.pair(ct.n(v[0]), ct.tree(gt.unjson(v[1])))) for x in obs["obs"]])
-        return "(mk %s %s %s %s)" % (ns.sub(case["script"]), ct.strs(case["names"]), st, o)
+        body = ct.lst([ct.result(x, lambda v: ct.pair(ct.n(v[0]), ct.tree(gt.unjson(v[1])))) for x in obs.get("body", [])])
+        return "(mk %s %s %s %s %s)" % (ns.sub(case["script"]), ct.strs(case["names"]), st, o, body)
 
     def nontrivial(self, case, obs):
         if "ok" not in obs["state"]:
@@ -225,7 +297,7 @@ class C17(Prop):
         name are compared with snapshots."""
         rng = random.Random(seed + 17)
         n = 150 if tier == "quick" else 2500
-        evals, failures = 0, []
+        evals, failures, shallow = 0, [], []
 
         def all_colls(c, seen=None):
             seen = set() if seen is None else seen
@@ -237,24 +309,44 @@ class C17(Prop):
                 yield from all_colls(s, seen)
 
         def scribble(d, rng):
+            """overwrite everything reachable without going *inside* a list element"""
             for k in list(d):
                 if isinstance(d[k], dict):
                     scribble(d[k], rng)
                     d[k]["__injected__"] = 1
+                elif isinstance(d[k], list):
+                    d[k].append("scribbled")      # list-valued settings are mutated in place
                 else:
                     d[k] = "changed"
             d["__new__"] = {"q": 1}
             if d and rng.random() < 0.5:
                 del d[next(iter(d))]
 
+        def scribble_in_lists(d):
+            """mutate the dicts that sit inside list-valued settings"""
+            n = 0
+            for v in d.values():
+                if isinstance(v, dict):
+                    n += scribble_in_lists(v)
+                elif isinstance(v, list):
+                    for x in v:
+                        if isinstance(x, dict):
+                            x["__injected__"] = 1
+                            n += 1
+            return n
+
         for _ in range(n):
             ids = ns.Ids()
             spec = ns.gen_coll(rng, rng.choice([2, 3]), ids, name=None, clean=True,
                                p_subdefault=0.5, p_default=0.8)
-            coll, st = ns.build_and_dump(spec)
+            self._reconfigure(rng, spec)
+            coll, st = ns.build_and_dump(spec, ns.Builder(build_seed=rng.randrange(1 << 30)))
             if coll is None:
                 continue
             colls = list(all_colls(coll))
+            # list-valued settings, also with dicts inside the list
+            for c in rng.sample(colls, min(2, len(colls))):
+                c.configure({"lst": [{"a": 1}, "x"], "sec": {"deeplist": ["p", "q"]}})
             if len(colls) > 2 and rng.random() < 0.5:
                 # mount an existing sub-collection object under a second parent
                 shared = rng.choice(colls[1:])
@@ -281,6 +373,14 @@ class C17(Prop):
                     bad = "configuration(%r) changed between two reads of one session" % (nm,)
                     break
                 expected[nm] = ref
+                # known: list-valued settings are copied shallowly (F-C17c) -- checked apart, on a
+                # throw-away read, and undone
+                probe = coll.configuration(nm)
+                if scribble_in_lists(probe) and [c._configuration for c in all_colls(coll)] != stored:
+                    shallow.append({"case": {"script": spec, "names": [nm]}, "finding": "F-C17c",
+                                    "what": "a dict inside a list-valued setting is shared with the stored configuration"})
+                    for c in all_colls(coll):
+                        _unscribble(c._configuration)
                 scribble(first, rng)
                 if [c._configuration for c in all_colls(coll)] != stored:
                     bad = "mutating the mapping returned by configuration(%r) changed a stored configuration" % (nm,)
@@ -291,10 +391,21 @@ class C17(Prop):
             if bad:
                 failures.append({"case": {"script": spec, "names": session}, "what": bad})
                 break
+        failures = failures + shallow[:1]
         return [{"name": "fresh-copy-snapshot", "evaluations": evals, "failures": failures,
                  "note": "aliasing half of C17 (test, not theorem): sessions of 3-7 lookups per tree (names, aliases, "
                          "default shortcuts, None; a collection mounted under two parents), every returned mapping "
                          "scribbled over, all stored _configuration dicts and re-reads compared with snapshots"}]
+
+
+def _unscribble(d):
+    for v in d.values():
+        if isinstance(v, dict):
+            _unscribble(v)
+        elif isinstance(v, list):
+            for x in v:
+                if isinstance(x, dict):
+                    x.pop("__injected__", None)
 
 
 def _shared_section(d, name):
@@ -322,6 +433,11 @@ def _shared_section(d, name):
             if keys[i] & keys[j]:
                 return True
     return False
+
+
+class _NoArgs(dict):
+    def get(self, k, default=None):
+        return ""
 
 
 PROP = C17()
